@@ -5,7 +5,7 @@ from __future__ import annotations
 import ast
 from typing import Dict, List
 
-from ..astutil import arg_of, call_name, calls, enclosing_loops, guards, last_attr, stmt_key, txt, walk_local
+from ..astutil import arg_of, call_name, calls, enclosing_loops, guards, kwarg, last_attr, stmt_key, txt, walk_local
 from ..cfg import CFG
 from ..flow import bound_from, fact_texts, facts_nnf, inline_reaching, nnf_literals, path_facts
 from ..index import UNRESOLVED, AnalysisError
@@ -393,7 +393,53 @@ def _anc(node: ast.AST):
         cur = getattr(cur, "_parent", None)
 
 
+def _ancestors(node: ast.AST):
+    cur = getattr(node, "_parent", None)
+    while cur is not None:
+        yield cur
+        cur = getattr(cur, "_parent", None)
+
+
+def r15_7(ctx: Ctx) -> None:
+    """ every gap search is handed the genes of exactly the interval it searches: the whole record with all genes, or one
+        single-part interval with the genes overlapping that same interval """
+    from ..flow import fact_texts, inline_reaching
+    sites = []
+    for qual, func in ctx.repo.functions(ORF):
+        for call in calls(func):
+            if call_name(call) == "find_intergenic_areas" and len(call.args) >= 3:
+                sites.append((qual, func, call))
+    for qual, func, call in sites:
+        ctx.call_sites += 1
+        cfg = CFG(func)
+        stmt = next(a for a in _ancestors(call) if isinstance(a, ast.stmt))
+        start, end = txt(call.args[0]), txt(call.args[1])
+        genes = inline_reaching(cfg, stmt, call.args[2])
+        ok, why = False, txt(genes)[:100]
+        if isinstance(genes, ast.Call) and last_attr(genes) == "get_cds_features" and not genes.args:
+            ok = start == "0" and end in ("len(record)", "len(record.seq)")
+            why = f"all genes for [{start}, {end})"
+        elif isinstance(genes, ast.Call) and last_attr(genes) == "get_cds_features_within_location" and genes.args:
+            where = txt(genes.args[0])
+            overlapping = kwarg(genes, "with_overlapping")
+            same = start == f"{where}.start" and end == f"{where}.end"
+            # the interval is one part: an element of a parts list, or a location known not to cross the origin
+            single = any(isinstance(lp, ast.For) and txt(lp.target) == where and txt(lp.iter).endswith(".parts")
+                         for lp in enclosing_loops(call, stop=func)) or \
+                any(text.startswith("not ") and text.endswith(".crosses_origin()") and where.startswith(text[4:-len(".crosses_origin()")])
+                    for text in fact_texts(cfg, stmt))
+            ok = same and single and overlapping is not None and txt(overlapping) == "True"
+            why = f"genes overlapping {where} for [{start}, {end})" + ("" if same else " - a different interval") + \
+                ("" if single else " - not known to be a single part")
+        ctx.ob("R15.7", ORF, call, qual, f"genes of the searched interval {stmt_key(call)[:40]}", ok,
+               "a gap search over an interval is given the genes overlapping that same single-part interval, in start order "
+               "(genes of another part would be out of order for the frontier sweep, and a multi-part lookup keeps only "
+               "contained genes)", form=why)
+
+
 def run(ctx: Ctx) -> None:
+    ctx.rule("R15.7", "each gap search gets the genes of the interval it searches", floor=3)
+    r15_7(ctx)
     ctx.rule("R15.1", "affine ORF coordinates on both strands, stop codon included", floor=5)
     ctx.rule("R15.2", "wrapping of a window that crosses the origin", floor=3)
     ctx.rule("R15.3", "codon tables, frames, write-once start state", floor=9)
